@@ -186,9 +186,31 @@ func (e *Engine) verifyFuncOpts(key string, o RunOpts) (fr *FuncResult) {
 		for j := 0; j < rt.Len() && j < len(ct.Results); j++ {
 			env.names[ct.Results[j]] = svOfVal(res[j], rt.At(j).Type())
 		}
+		// `split p lo hi`: case analysis on an integer parameter with a finite range (complete: the
+		// precondition must confine p to [lo, hi), which is itself an obligation)
+		var cases []string
+		var caseNames []string
+		if sp := ct.Raw["split"]; len(sp) > 0 {
+			var pn string
+			var lo, hi int
+			if n, _ := fmt.Sscanf(sp[0], "%s %d %d", &pn, &lo, &hi); n == 3 {
+				pv := env.names[pn]
+				for k := lo; k < hi; k++ {
+					cases = append(cases, eq(pv.T, itoa(int64(k))))
+					caseNames = append(caseNames, fmt.Sprintf("[%s=%d]", pn, k))
+				}
+				vc.oblige(key+"#split:range", "post", outReach, and(sx("<=", itoa(int64(lo)), pv.T), sx("<", pv.T, itoa(int64(hi)))), "")
+			}
+		}
 		for k, en := range ct.Ensures {
 			t := x.evalBool(env, en.Expr)
-			vc.oblige(fmt.Sprintf("%s#post.%d", key, k+1), "post", outReach, t, fmt.Sprintf("%s:%d", shortPath(ct.File), en.Line))
+			if len(cases) == 0 {
+				vc.oblige(fmt.Sprintf("%s#post.%d", key, k+1), "post", outReach, t, fmt.Sprintf("%s:%d", shortPath(ct.File), en.Line))
+				continue
+			}
+			for ci, cs := range cases {
+				vc.oblige(fmt.Sprintf("%s#post.%d%s", key, k+1, caseNames[ci]), "post", and(outReach, cs), t, fmt.Sprintf("%s:%d", shortPath(ct.File), en.Line))
+			}
 		}
 		// the exit must be reachable under the hypotheses (vacuity guard)
 		vc.cover(key+"#cover:exit", outReach, "")
